@@ -38,17 +38,18 @@ TIMEOUT = {'quick': 2400, 'thorough': 14000}
 def floors(codec):
     return {'quick': {'programs_built': 40, 'encode_comparisons': 1500, 'decode_comparisons': 1500, 'corpus_inputs': 40000,
                       'too_small_destinations_tried': 5000},
-            'thorough': {'programs_built': 400, 'encode_comparisons': 20000, 'corpus_inputs': 1000000}}
+            'thorough': {'programs_built': 160, 'encode_comparisons': 6000, 'decode_comparisons': 6000, 'corpus_inputs': 160000,
+                         'too_small_destinations_tried': 20000}}
 
 
 def shards(tier):
-    return 32 if tier == 'quick' else 128
+    return 32 if tier == 'quick' else 64
 
 
 def params(tier):
     if tier == 'quick':
         return {'modules': 3, 'values': 12, 'hostile': 250}
-    return {'modules': 12, 'values': 25, 'hostile': 1500}
+    return {'modules': 9, 'values': 18, 'hostile': 375}
 
 
 def profile(codec, probe=None):
